@@ -69,6 +69,8 @@ func runInteropCase(c ioCase, bin, tmp string) map[string]interface{} {
 		extra = append(extra, "VPLUGIN_IMPOSTOR=dropmux")
 	case "false":
 		extra = append(extra, "VPLUGIN_IMPOSTOR=muxfalse")
+	case "legacy":
+		extra = append(extra, "VPLUGIN_IMPOSTOR=legacyline") // a plugin from before the protocol field: four fields
 	}
 	var cl *plugin.Client
 	var launcher *vp.Pair
@@ -87,6 +89,11 @@ func runInteropCase(c ioCase, bin, tmp string) map[string]interface{} {
 		p2 := vp.NewPair(bin, mkHost("cmd"), pc, nil, nil)
 		cfg := p2.Config
 		cfg.Cmd = nil
+		if cell.PMux == "legacy" {
+			rcc := *rc
+			rcc.Protocol = "" // a reattach configuration that does not name the protocol: net/rpc
+			rc = &rcc
+		}
 		cfg.Reattach = rc
 		cfg.Logger = hclog.NewNullLogger()
 		cl = plugin.NewClient(cfg)
